@@ -924,7 +924,7 @@ def _hasher():
                  f"bulk::append::<{ty}, {n}, {m}, {seq_of(keys)}>(Pre::Inv, Tables::Any, step::ALL)",
                  kind, n + m, {"C18": t}, "STEP",
                  meta=dict(op="append", kind=kind, n=n, m=m, other_keys=keys, pre="inv", group="all", hasher="per-instance key"),
-                 covers_required=False, cost=(n + m) * (15 if dq else 4), mem=8)
+                 covers_required=False, cost=(n + m) * (15 if dq else 4), mem=16)
         for n in (1, 2, 3):
             t = tq(n, 1 if dq else 2, 3)
             inst(f"eq_{kind}_n{n}_m{n}", f"misc::eq2::<{ty}, {n}, {n}>()", kind, n, {"C18": t, "C14": t}, "EQ",
